@@ -4,6 +4,9 @@ import (
 	"fmt"
 	"math/big"
 
+	"github.com/consensys/gnark-crypto/ecc"
+	frbls12377 "github.com/consensys/gnark-crypto/ecc/bls12-377/fr"
+	poseidon2bls12377 "github.com/consensys/gnark-crypto/ecc/bls12-377/fr/poseidon2"
 	gchash "github.com/consensys/gnark-crypto/hash"
 	"github.com/consensys/gnark/constraint"
 	csbls12377 "github.com/consensys/gnark/constraint/bls12-377"
@@ -17,6 +20,8 @@ import (
 	"github.com/consensys/gnark/std/gkr"
 	stdhash "github.com/consensys/gnark/std/hash"
 	"github.com/consensys/gnark/std/hash/mimc"
+	gkrposeidon2 "github.com/consensys/gnark/std/permutation/poseidon2/gkr-poseidon2"
+	"strings"
 	"verifsim/simrt"
 )
 
@@ -33,6 +38,7 @@ func init() {
 	csbls24317.RegisterHashBuilder("mimc", gchash.MIMC_BLS24_317.New)
 	csbw6633.RegisterHashBuilder("mimc", gchash.MIMC_BW6_633.New)
 	csbw6761.RegisterHashBuilder("mimc", gchash.MIMC_BW6_761.New)
+	gkrposeidon2.RegisterGkrSolverOptions(ecc.BLS12_377)
 }
 
 // C19: batches of gate evaluations delegated to GKR, under the hint nemesis acting on the
@@ -130,7 +136,92 @@ func gkrCase(topo, inst int) *gcase {
 	}
 }
 
+// the Poseidon2 compression wrapper built on GKR (BLS12-377 only): outputs come from one hint,
+// the GKR solution from another, and a commitment to (inputs, claimed outputs) seeds the verifier
+type gkrPoseidonCircuit struct {
+	A, B []frontend.Variable
+}
+
+func (c *gkrPoseidonCircuit) Define(api frontend.API) error {
+	g := gkrposeidon2.NewGkrCompressions(api)
+	outs := make([]frontend.Variable, len(c.A))
+	for i := range c.A {
+		outs[i] = g.Compress(c.A[i], c.B[i])
+	}
+	probe(api, 1, outs...)
+	return nil
+}
+
+func gkrPoseidonCase(inst int) *gcase {
+	mk := func() *gkrPoseidonCircuit {
+		return &gkrPoseidonCircuit{A: make([]frontend.Variable, inst), B: make([]frontend.Variable, inst)}
+	}
+	f377 := sField{Name: "bls12_377", Q: ecc.BLS12_377.ScalarField(), Curve: ecc.BLS12_377}
+	return &gcase{
+		Name: fmt.Sprintf("gkr/poseidon2-compress/inst%d", inst), Circuit: mk(), NeedsCommit: true, Field: &f377, MaxFaults: 10,
+		Assign: func(tape *simrt.Tape, q *big.Int) (frontend.Circuit, bool, func(map[int][]*big.Int) string, string) {
+			c := mk()
+			want := make([]*big.Int, inst)
+			var desc []string
+			for i := 0; i < inst; i++ {
+				a, b := drawBiased(tape, q), drawBiased(tape, q)
+				c.A[i], c.B[i] = a, b
+				var x [2]frbls12377.Element
+				x[0].SetBigInt(a)
+				x[1].SetBigInt(b)
+				y0 := x[1]
+				params := poseidon2bls12377.GetDefaultParameters()
+				if err := poseidon2bls12377.NewPermutation(2, params.NbFullRounds, params.NbPartialRounds).Permutation(x[:]); err != nil {
+					panic(err)
+				}
+				x[1].Add(&x[1], &y0)
+				want[i] = x[1].BigInt(new(big.Int))
+				desc = append(desc, fmt.Sprintf("(%s,%s)", a, b))
+			}
+			return c, true, func(p map[int][]*big.Int) string { return eqInts(p[1], want...) }, strings.Join(desc, " ")
+		},
+		// the initial Fiat-Shamir challenge of the GKR verifier must depend on the claimed outputs:
+		// when a faulted hint changed a claimed output, what is committed must change with it
+		PostCheck: func(honest, faulted []hintCall, planned map[int]bool) string {
+			changed := false
+			for idx := range planned {
+				if idx < len(honest) && idx < len(faulted) && strings.HasSuffix(faulted[idx].Name, "permuteHint") && len(faulted[idx].Out) == 1 && faulted[idx].Out[0] != nil && honest[idx].Out[0].Cmp(faulted[idx].Out[0]) != 0 {
+					changed = true
+				}
+			}
+			if !changed {
+				return ""
+			}
+			commits := func(calls []hintCall) [][]*big.Int {
+				var out [][]*big.Int
+				for _, c := range calls {
+					if strings.HasSuffix(c.Name, "hashCommitHint") {
+						out = append(out, c.In)
+					}
+				}
+				return out
+			}
+			h, f := commits(honest), commits(faulted)
+			if len(h) == 0 || len(h) != len(f) {
+				return ""
+			}
+			for i := range h {
+				if len(h[i]) != len(f[i]) {
+					return ""
+				}
+				for j := range h[i] {
+					if h[i][j].Cmp(f[i][j]) != 0 {
+						return ""
+					}
+				}
+			}
+			return "a claimed compression output was changed by the prover but the values committed for the GKR verifier's initial challenge are unchanged: the challenge does not depend on the claimed outputs, so they can be chosen after it is known"
+		},
+	}
+}
+
 var c19Cases = []*gcase{
+	gkrPoseidonCase(2), gkrPoseidonCase(3), gkrPoseidonCase(8),
 	gkrCase(0, 2), gkrCase(0, 4), gkrCase(1, 2), gkrCase(1, 8), gkrCase(2, 4), gkrCase(2, 16), gkrCase(3, 2), gkrCase(3, 4),
 }
 
